@@ -642,6 +642,18 @@ def build_sim(spec, observer=None, crash_at=None, shift=0, net_cls=ChargingNetwo
         sim.update_scheduler(scheduler)
     if getattr(scheduler, "late_specs", None):
         scheduler.late_evs = evs
+    if spec.get("peek"):
+        # looking is not touching: before the run the caller inspects the simulator through the
+        # algorithm's interface (period 0, nothing plugged in yet)
+        with warnings.catch_warnings():
+            warnings.simplefilter("ignore")
+            iface = scheduler.interface
+            iface.active_sessions()
+            iface.infrastructure_info()
+            iface.last_applied_pilot_signals, iface.last_actual_charging_rate, iface.get_prev_peak()
+            iface.is_feasible({sid: [0.0] for sid in net.station_ids})
+            for sid in list(net.station_ids)[:2]:
+                iface.max_pilot_signal(sid), iface.evse_voltage(sid), iface.allowable_pilot_signals(sid)
     if late is not None:
         q.add_events([e for _, e in late.queue])
     return Handle(spec, sim, net, evs, scheduler)
@@ -1056,6 +1068,7 @@ def scenarios(
         "store_history": draw(st.booleans()) and not sch.get("reuse_dict"),
         "queue_preused": draw(st.sampled_from([None, None, None, 50])),
         "stretch": stretch,
+        "peek": extras and draw(st.integers(0, 4)) == 0,
         # a second site with the same ids is simulated in this process: before the scenario is
         # built, or from inside one of its scheduler calls (what-if / look-ahead simulation)
         "decoy": draw(st.sampled_from([None] * 8 + [{"mode": "before"}, {"mode": "nested", "t": 0}, {"mode": "nested", "t": 1}, {"mode": "nested", "t": 3}])) if extras else None,
@@ -1122,6 +1135,8 @@ def scenario_labels(spec):
         labels.add("scheduler_object_already_served_another_simulator")
     if any(x.get("added_at") is not None for x in spec["sessions"]):
         labels.add("sessions_added_while_the_run_is_in_progress")
+    if spec.get("peek"):
+        labels.add("inspected_through_the_interface_before_run")
     if spec.get("stretch", 1) > 1:
         labels.add("long_run_hundreds_of_periods")
     if max(len(v) for v in by_station.values()) >= 12:
